@@ -33,22 +33,25 @@ type Interp struct {
 	Step int
 
 	// state of the operation being executed
-	cur        *Op
-	pre        []Ent // entity state before the operation
-	evAt       []Ent // entity state at event time (after the structural change)
-	sel        map[int]bool
-	batch      bool
-	emis       []Emission
-	free       map[int]bool // observers unconstrained in this operation
-	cbLocked   bool
-	Excluded   int
-	nestedDone map[string]int
-	regAt      []bool // observers registered at the start of the operation
+	cur          *Op
+	pre          []Ent // entity state before the operation
+	evAt         []Ent // entity state at event time (after the structural change)
+	sel          map[int]bool
+	batch        bool
+	emis         []Emission
+	free         map[int]bool // observers unconstrained in this operation
+	cbLocked     bool
+	Excluded     int
+	ExcludedSigs map[string]int
+	nestedDone   map[string]int
+	everRel      map[string][]int // relation layouts populated at some point: layout -> targets
+	shrinkAt     int
+	regAt        []bool // observers registered at the start of the operation
 }
 
 // NewInterp creates an interpreter with one backend per policy.
 func NewInterp(cfg Config, pols []Policy, opt Options) *Interp {
-	it := &Interp{M: NewModel(), Opt: opt, Cnt: Counters{}}
+	it := &Interp{M: NewModel(), Opt: opt, Cnt: Counters{}, ExcludedSigs: map[string]int{}}
 	for i, p := range pols {
 		it.B = append(it.B, NewBackend(fmt.Sprintf("B%d", i), cfg, p))
 	}
@@ -125,6 +128,18 @@ func (it *Interp) run(op *Op, valid bool, f func(b *Backend)) {
 			fail("reject|"+op.K+"|no-panic", "%s step %d: invalid operation %v did not panic", b.Name, it.Step, op)
 		}
 	}
+	if !valid {
+		it.count("rejected-" + op.K)
+		if it.locked() {
+			it.count("rejected-structural-under-lock")
+		}
+		if op.Sub != "" {
+			it.count("misuse-" + op.Sub)
+			if op.Sub == "stale" {
+				it.count("misuse-stale-" + it.staleClass(op.E))
+			}
+		}
+	}
 }
 
 // Apply executes one operation.
@@ -180,6 +195,8 @@ func (it *Interp) Apply(op *Op) {
 		it.opResource(op)
 	case "read":
 		it.opRead(op)
+	case "dumpLoad":
+		it.opDumpLoad(op)
 	default:
 		panic("unknown op kind " + op.K)
 	}
@@ -214,15 +231,65 @@ func (it *Interp) checkEvents(op *Op) {
 			}
 		}
 	}
+	// class: some but not all observers of one event type fire
+	perEv := map[int][2]int{}
+	for j, o := range it.M.Obs {
+		if j >= len(it.regAt) || !it.regAt[j] {
+			continue
+		}
+		fired := false
+		for r := range want {
+			if r.Obs == j {
+				fired = true
+			}
+		}
+		c := perEv[o.Ev]
+		if fired {
+			c[0]++
+		} else {
+			c[1]++
+		}
+		perEv[o.Ev] = c
+	}
+	for ev, c := range perEv {
+		if c[0] > 0 && c[1] > 0 {
+			for i := range it.emis {
+				if it.emis[i].Ev == ev {
+					it.count("partial-fire")
+					break
+				}
+			}
+		}
+	}
+	if len(want) > 0 {
+		it.count("op-with-callbacks")
+	}
 	for _, b := range it.B {
+		skip := func(j int) bool {
+			if it.free[j] {
+				return true
+			}
+			if b.Pol.DropObsOdd {
+				if j%2 == 1 {
+					return true
+				}
+				if j < len(b.obsOn) && j < len(it.regAt) && b.obsOn[j] != it.M.Obs[j].Registered {
+					return true // registration state diverged through an in-callback unregistration
+				}
+			}
+			return false
+		}
 		got := map[Rec]int{}
 		for _, r := range b.rec {
-			if it.free[r.Obs] {
+			if skip(r.Obs) {
 				continue
 			}
 			got[r]++
 		}
 		for r, n := range want {
+			if skip(r.Obs) {
+				continue
+			}
 			if got[r] != n {
 				o := it.M.Obs[r.Obs]
 				fail("events|"+op.K+"|"+evNames[o.Ev]+"|missing", "%s step %d %v: observer %d %s fired %d times for #%d, model %d (pre %s)", b.Name, it.Step, op, r.Obs, obsStr(o), got[r], r.Ent, n, it.preMask(r.Ent))
@@ -766,6 +833,7 @@ func (it *Interp) opRemoveEntity(op *Op) {
 		}
 		it.M.Kill(op.E)
 		it.evAt = it.M.Ents
+		it.classifyTargets([]int{op.E})
 	}
 	it.run(op, valid, func(b *Backend) { b.W.RemoveEntity(b.handle(op.E)) })
 }
@@ -1170,6 +1238,12 @@ func (b *Backend) makeFilter(m *Model, fi int) {
 		b.uflt[fi] = uf
 		return
 	}
+	b.flt[fi] = b.buildFilter(fs)
+	b.twin[fi] = b.buildFilter(fs) // never registered; created now because fixed targets must be alive at creation
+}
+
+// buildFilter creates an unregistered typed filter from its specification.
+func (b *Backend) buildFilter(fs *FilterSpec) Filter {
 	f := FilterInsts[fs.Inst].New(b.W)
 	if len(fs.With) > 0 {
 		f.With(compsOf(fs.With))
@@ -1182,7 +1256,7 @@ func (b *Backend) makeFilter(m *Model, fi int) {
 	if len(fs.Rels) > 0 {
 		f.Relations(b.rels(fs.List(), fs.Rels))
 	}
-	b.flt[fi] = f
+	return f
 }
 
 // opFilterReg registers (Mode 1) or unregisters (Mode 0) a filter.
@@ -1229,7 +1303,20 @@ func (it *Interp) opQuery(op *Op) {
 	sel := it.M.Select(f, op.QRels)
 	it.classifyQuery(f, op, sel)
 	for _, b := range it.B {
-		b.RunQuery(it.M, op.F, op.QRels, "query|"+queryKind(f), fmt.Sprintf("step %d", it.Step))
+		order := b.RunQuery(it.M, op.F, op.QRels, "query|"+queryKind(f), fmt.Sprintf("step %d", it.Step))
+		if f.Registered && f.Inst >= 0 && !b.Pol.UncachedOnly {
+			// differential: an identical, never registered filter must select the same entities
+			b.useTwin = true
+			tw := b.RunQuery(it.M, op.F, op.QRels, "query|twin", fmt.Sprintf("step %d (uncached twin)", it.Step))
+			b.useTwin = false
+			if len(tw) != len(order) {
+				fail("query|cached|twin-differs", "%s step %d: cached filter %d visits %v, uncached twin %v", b.Name, it.Step, op.F, order, tw)
+			}
+			it.count("cached-vs-twin-compared")
+		}
+	}
+	if f.Registered && f.Emptied {
+		it.count("query-cached-after-table-emptied")
 	}
 }
 
@@ -1284,9 +1371,34 @@ func (it *Interp) opShrink(op *Op) {
 	if it.locked() {
 		panic("bad op: Shrink under lock is outside the generated domain")
 	}
-	for _, e := range it.M.Ents {
-		_ = e
+	nowRel := map[string]bool{}
+	for s := range it.M.Ents {
+		if e := &it.M.Ents[s]; e.Alive {
+			nowRel[layoutKey(e)] = true
+		}
 	}
+	for k, tg := range it.everRel {
+		if nowRel[k] {
+			continue
+		}
+		aliveT := false
+		ok := true
+		for _, t := range tg {
+			if t >= 0 {
+				if t < len(it.M.Ents) && it.M.Ents[t].Alive {
+					aliveT = true
+				} else {
+					ok = false
+				}
+			}
+		}
+		if ok && aliveT {
+			it.count("shrink-with-empty-relation-table-of-alive-target")
+			it.shrinkAt = it.Step
+			break
+		}
+	}
+	it.everRel = map[string][]int{}
 	it.run(op, true, func(b *Backend) {
 		if b.Pol.SkipShrink {
 			return
@@ -1364,12 +1476,34 @@ func (it *Interp) checkShrinkCaps(b *Backend) {
 
 func (it *Interp) opReset(op *Op) {
 	valid := !it.locked()
-	it.run(op, valid, func(b *Backend) { b.W.Reset() })
+	if valid {
+		for _, o := range it.M.Obs {
+			if o.Registered && o.Ev == EvRemoveRels {
+				it.count("reset-with-highest-event-observer")
+			}
+		}
+		for _, f := range it.M.Filters {
+			if f.Registered {
+				it.count("reset-with-registered-filter")
+			}
+		}
+		if it.M.NumAlive() > 0 {
+			it.count("reset-nonempty-world")
+		}
+	}
+	it.run(op, valid, func(b *Backend) {
+		if b.Pol.FreshOnReset && valid {
+			it.freshWorld(b, true)
+			return
+		}
+		b.W.Reset()
+	})
 	if !valid {
 		return
 	}
 	it.M.Ents = nil
 	it.pre = nil
+	it.everRel = nil
 	for _, f := range it.M.Filters {
 		f.Registered = false
 		for _, r := range f.Rels {
@@ -1383,6 +1517,9 @@ func (it *Interp) opReset(op *Op) {
 	}
 	it.M.Resources = map[int]int64{}
 	for _, b := range it.B {
+		for j := range b.obsOn {
+			b.obsOn[j] = false
+		}
 		b.H = nil
 		b.Ser = map[ecs.Entity]int{}
 		b.Issued = map[ecs.Entity]bool{}
@@ -1525,6 +1662,62 @@ func (it *Interp) classifyStep() {
 			}
 		}
 	}
+	// free list: IDs of dead handles that are not alive again
+	b0 := it.B[0]
+	aliveID := map[uint32]bool{}
+	for s := range it.M.Ents {
+		if it.M.Ents[s].Alive && s < len(b0.H) {
+			aliveID[b0.H[s].ID()] = true
+			if b0.H[s].Gen() > 0 {
+				it.Cnt["id-reissued"] = 1
+			}
+		}
+	}
+	freeIDs := map[uint32]bool{}
+	for s := range it.M.Ents {
+		if !it.M.Ents[s].Alive && s < len(b0.H) && !aliveID[b0.H[s].ID()] {
+			freeIDs[b0.H[s].ID()] = true
+		}
+	}
+	if len(freeIDs) >= 2 {
+		it.Cnt["free-list-2"] = 1
+	}
+	// relation tables emptied in this step
+	emptied := false
+	for k, n := range cnt {
+		if n > 0 && now[k] == 0 && !strings.HasSuffix(k, "[]") {
+			emptied = true
+			it.count("relation-table-emptied")
+			if it.everRel == nil {
+				it.everRel = map[string][]int{}
+			}
+		}
+	}
+	if emptied {
+		it.Cnt["table-emptied-since-stats"] = 1
+		for _, f := range it.M.Filters {
+			if !f.Registered || f.Stale {
+				continue
+			}
+			for s := range it.pre {
+				p := &it.pre[s]
+				if p.Alive && hasRel(p.Mask) && now[layoutKey(p)] == 0 && matchEnt(it.pre, p, f, nil) {
+					f.Emptied = true
+					it.count("cached-relation-table-emptied")
+				}
+			}
+		}
+	}
+	// remember populated relation layouts (for the Shrink class)
+	if it.everRel == nil {
+		it.everRel = map[string][]int{}
+	}
+	for s := range it.M.Ents {
+		e := &it.M.Ents[s]
+		if e.Alive && hasRel(e.Mask) {
+			it.everRel[layoutKey(e)] = relTgts(e)
+		}
+	}
 	c1, c2 := it.B[0].Cfg.Cap1, it.B[0].Cfg.Cap2
 	if c1 == 0 {
 		c1, c2 = 1024, 128
@@ -1549,4 +1742,113 @@ func comps16(m uint16) bool {
 		}
 	}
 	return false
+}
+
+// freshWorld replaces the backend's world by a new one with the same registration order and re-creates the
+// (unregistered) filters and observers on it (C16: a reset world must behave like a fresh one).
+func (it *Interp) freshWorld(b *Backend, withFilters bool) {
+	nb := NewBackend(b.Name, b.Cfg, b.Pol)
+	nb.Trace = b.Trace
+	*b = *nb
+	for j := range it.M.Obs {
+		it.makeObs(b, j)
+	}
+	if !withFilters {
+		return
+	}
+	for fi, f := range it.M.Filters {
+		if f.Stale {
+			for len(b.flt) <= fi {
+				b.flt = append(b.flt, nil)
+			}
+			continue
+		}
+		saved := f.Rels
+		// fixed targets of the pre-reset world are gone; such filters are marked stale by the caller
+		hasT := false
+		for _, r := range f.Rels {
+			if r.T >= 0 {
+				hasT = true
+			}
+		}
+		if hasT {
+			for len(b.flt) <= fi {
+				b.flt = append(b.flt, nil)
+			}
+			continue
+		}
+		b.makeFilter(it.M, fi)
+		f.Rels = saved
+	}
+}
+
+// opDumpLoad dumps the entity state, resets the world (Mode 0) or builds a fresh one (Mode 1) and loads the dump.
+// All alive entities stay alive (same handles) but lose their components.
+func (it *Interp) opDumpLoad(op *Op) {
+	valid := !it.locked()
+	it.run(op, valid, func(b *Backend) {
+		dump := b.U.DumpEntities()
+		if !valid {
+			b.W.Reset()
+			return
+		}
+		if op.Mode == 1 {
+			h, ser, iss := b.H, b.Ser, b.Issued
+			it.freshWorld(b, false)
+			b.H, b.Ser, b.Issued = h, ser, iss
+		} else {
+			b.W.Reset()
+		}
+		b.U.LoadEntities(&dump)
+		if op.Mode == 1 {
+			// re-create the filters now that their fixed targets exist again
+			for fi, f := range it.M.Filters {
+				for len(b.flt) <= fi {
+					b.flt = append(b.flt, nil)
+				}
+				ok := !f.Stale
+				for _, r := range f.Rels {
+					if r.T >= 0 && !it.alive(r.T) {
+						ok = false
+					}
+				}
+				if ok {
+					b.makeFilter(it.M, fi)
+				}
+			}
+		}
+	})
+	if !valid {
+		return
+	}
+	if op.Mode == 1 {
+		for _, f := range it.M.Filters {
+			for _, r := range f.Rels {
+				if r.T >= 0 && !it.alive(r.T) {
+					f.Stale = true // cannot be re-created on the new world: its fixed target is dead
+				}
+			}
+		}
+	}
+	for s := range it.M.Ents {
+		e := &it.M.Ents[s]
+		e.Mask = 0
+		e.Val = [comps.N]int64{}
+		for c := range e.Tgt {
+			e.Tgt[c] = -1
+		}
+	}
+	for _, f := range it.M.Filters {
+		f.Registered = false
+	}
+	for _, o := range it.M.Obs {
+		o.Registered = false
+	}
+	for _, b := range it.B {
+		for j := range b.obsOn {
+			b.obsOn[j] = false
+		}
+	}
+	it.M.Resources = map[int]int64{}
+	it.count("dump-load")
 }
